@@ -20,7 +20,7 @@ from vcommon import log
 import z3
 import core, ref, driver as D, gen01, gen15, gen07
 
-LIMITS = {"timeout_ms": 4000, "max_steps": 6000, "max_paths": 600, "max_depth": 10, "budget_s": 90}
+LIMITS = {"timeout_ms": 4000, "max_steps": 6000, "max_paths": 160, "max_depth": 10, "budget_s": 90}
 G = {}
 
 
@@ -83,7 +83,7 @@ def work(job):
         res.update(r)
         res["mismatch"] = []
         res["validated"] = 0
-        if validate:
+        if validate and "impl" in keep:
             for vals, p in path_models(keep["impl"], fam.NIN, validate):
                 st, lines, detail = D.predict_impl(funcs, mp, vals)
                 rc, out, err = D.run_real(exe, wdir, stem + "r", ref.render(prog, vals))
@@ -162,8 +162,8 @@ def select(prop, tier):
         return gen07.select(tier, V.seed())
     if prop == "C01":
         if tier == "quick":
-            return gen01.select([(1, None), (2, 1100), (3, 200)], V.seed())
-        return gen01.select([(1, None), (2, None), (3, 7000)], V.seed())
+            return gen01.select([(1, None), (2, 1100), (3, 200)], V.seed(), deep=80)
+        return gen01.select([(1, None), (2, None), (3, 7000)], V.seed(), deep=None)
     if tier == "quick":
         items, space = gen15.select(1, 3, 2400, V.seed())
         return items, space, 1
@@ -173,8 +173,8 @@ def select(prop, tier):
 
 def check(a, prop, t0):
     items, space, full_depth = select(prop, a.tier)
-    every = 5 if a.tier == "quick" else 2
-    jobs = [(i, it, (3 if a.tier == "quick" else 6) if i % every == 0 else 0) for i, it in enumerate(items)]
+    # every program is also run for real: up to 4 (quick) / 10 (thorough) of its paths, inputs from models of the path conditions
+    jobs = [(i, it, 4 if a.tier == "quick" else 10) for i, it in enumerate(items)]
     log("  %s: %d programs (exhaustive to depth %d, seeded sample beyond)" % (prop, len(jobs), full_depth))
     with multiprocessing.Pool(15) as pool:
         results = pool.map(work, jobs, chunksize=4)
@@ -187,6 +187,7 @@ def report(a, prop, results, space, full_depth, t0):
     viol = [r for r in results if r.get("status") == "violation"]
     unk = [r for r in results if r.get("status") == "unknown"]
     unsup = [r for r in results if r.get("status") in ("unsupported", "compile-fail")]
+    outside = [r for r in results if r.get("status") == "outside-bound"]
     mism = [(r, m) for r in results for m in r.get("mismatch", [])]
     code = V.EXIT_OK
     new, unrepro, known_hits = [], [], {}
@@ -257,6 +258,7 @@ def report(a, prop, results, space, full_depth, t0):
         "programs": len(results), "disagreements_checked": len(viol) + len(mism),
         "samples": samples,
         "programs_ok (every pair of jointly feasible paths behaves alike, for all inputs)": len(ok),
+        "programs_outside_bound (more than %d paths: not examined, outside the claim)" % LIMITS["max_paths"]: len(outside),
         "programs_violating": len(viol), "programs_undecided": len(unk), "programs_unsupported": len(unsup),
         "implementation_paths": sum(r.get("impl_paths", 0) for r in results), "reference_paths": sum(r.get("ref_paths", 0) for r in results),
         "path_pairs_decided_by_solver": npairs, "solver_queries": nq,
@@ -266,7 +268,7 @@ def report(a, prop, results, space, full_depth, t0):
         "family": {"exhaustive_to_depth": full_depth, "space_listed": space, "selected": len(results)},
         "solver_time_s": round(sum(r.get("t", 0) for r in results), 1),
         "checker_cmd": "python3-vt checks/c01_main.py %s --tier %s  (z3 %s, QF_BV)" % (prop, a.tier, z3.get_version_string()),
-        "bounds": "inputs: three i32, all values; <= %d executed steps and call depth <= %d per path, <= %d paths per program" % (LIMITS["max_steps"], LIMITS["max_depth"], LIMITS["max_paths"]),
+        "bounds": "inputs: three i32, all values; <= %d executed steps and call depth <= %d per path; programs with more than %d paths are not examined (counted above)" % (LIMITS["max_steps"], LIMITS["max_depth"], LIMITS["max_paths"]),
         "functions_encoded": "compiler output of the real `mscript compile` for each program (all of compiler/src/ast/*::compile that the family reaches); interpreter side = instruction summary bytesym/vm.py",
     }
     assumptions = ["what is validated is the compiler's OUTPUT on this run, per program, for all input values; the interpreter side is the instruction summary in bytesym/vm.py, validated on this run against %d real executions (one per sampled path, inputs from a model of the path condition)" % nval,
